@@ -98,22 +98,18 @@ theorem inputs_from_requested_accounts (sortFn : List Utxo → List Utxo) (hperm
     ∃ acct amount useUnc, Action.spend acct u.asset amount useUnc ∈ actions ∧ u.account = acct :=
   (build_ok_inv sortFn hperm k k' exp actions t h).1.insrc u hu
 
-/-- FULL statement "the template never spends an output twice". Refuted (F16). -/
-def inputs_distinct_full : Prop :=
-  ∀ (k k' : Keeper) (exp : Nat) (actions : List Action) (t : Tpl),
-    build k exp actions = (.ok t, k') → (t.ins.map (·.id)).Nodup
+/-- the former F16 witness through the builder: output 1 (amount 5) is a wallet-DB record and
+    unconfirmed; it is listed once now, so a spend of 8 is refused and a spend of 4 spends it once -/
+example : (build { empty with confirmed := [⟨1, 0, 5, 1, 0, 0, false, 1⟩], unconfirmed := [⟨1, 0, 5, 1, 0, 0, false, 1⟩] }
+    100 [.spend 1 0 8 true, .control 0 7 5]).1 = .error [(0, .reserve .insufficient)] := by decide
+example : (build { empty with confirmed := [⟨1, 0, 5, 1, 0, 0, false, 1⟩], unconfirmed := [⟨1, 0, 5, 1, 0, 0, false, 1⟩] }
+    100 [.spend 1 0 4 true, .control 0 3 5]).1 =
+    .ok ⟨[⟨1, 0, 5, 1, 0, 0, false, 1⟩], [⟨.change, 0, 1, 1⟩, ⟨.recv, 0, 3, 5⟩], 1⟩ := by decide
 
-theorem inputs_distinct_full_refuted : ¬ inputs_distinct_full := by
-  intro h
-  have := h { empty with confirmed := [⟨1, 0, 5, 1, 0, 0, false, 1⟩], unconfirmed := [⟨1, 0, 5, 1, 0, 0, false, 1⟩] }
-    _ 100 [.spend 1 0 8 true, .control 0 7 5] _ rfl
-  revert this; decide
-
-/-- `build_inputs_distinct_partial`: when no output is listed twice in the wallet (the
-    wallet-DB records and the unconfirmed map are disjoint), a successfully built template —
+/-- `build_inputs_distinct` (full strength): a successfully built template — any keeper state,
     any number of spend actions, accounts and assets — never spends an output twice. -/
-theorem build_inputs_distinct_partial (sortFn : List Utxo → List Utxo) (hperm : ∀ l, (sortFn l).Perm l) (k k' : Keeper)
-    (exp : Nat) (actions : List Action) (t : Tpl) (hl : ListedNodup k)
+theorem build_inputs_distinct (sortFn : List Utxo → List Utxo) (hperm : ∀ l, (sortFn l).Perm l) (k k' : Keeper)
+    (exp : Nat) (actions : List Action) (t : Tpl)
     (h : buildWith sortFn k exp actions = (.ok t, k')) : (t.ins.map (·.id)).Nodup := by
   unfold buildWith at h
   cases hr : runActions sortFn exp actions 0 (k, ⟨[], [], []⟩) with
@@ -127,46 +123,8 @@ theorem build_inputs_distinct_partial (sortFn : List Utxo → List Utxo) (hperm 
       simp only [List.isEmpty_nil, if_true, Prod.mk.injEq, Except.ok.injEq] at h
       obtain ⟨rfl, rfl⟩ := h
       have := runActions_dinv sortFn hperm exp actions 0 (k, ⟨[], [], []⟩) (k1, b) hr
-        ⟨by simp, by intro u hu; simp at hu⟩ hl
+        ⟨by simp, by intro u hu; simp at hu⟩
       exact this.1
-
-/-- a single spend action over a wallet without doubly listed outputs spends distinct outputs -/
-theorem single_spend_inputs_distinct (sortFn : List Utxo → List Utxo) (hperm : ∀ l, (sortFn l).Perm l) (k : Keeper)
-    (acct asset amount : Nat) (useUnc : Bool) (exp : Nat) (s' : Keeper × Builder)
-    (hnodup : ((listed k useUnc).map (·.id)).Nodup)
-    (h : buildAction sortFn exp (k, ⟨[], [], []⟩) (.spend acct asset amount useUnc) = (s', none)) :
-    (s'.2.ins.map (·.id)).Nodup := by
-  simp only [buildAction] at h
-  by_cases h0 : (amount == 0) = true
-  · simp [h0] at h
-  · simp only [h0, Bool.false_eq_true, if_false] at h
-    cases hres : reserveWith sortFn k acct asset amount useUnc 0 exp with
-    | mk o k1 =>
-      rw [hres] at h
-      cases o with
-      | err e => simp at h
-      | panic => simp at h
-      | ok r =>
-        have hd := (BytomModel.Props.C26.reserve_distinct_partial sortFn hperm k acct asset amount useUnc 0 exp r k1 hnodup hres).1
-        simp only at h
-        by_cases hbad : (r.utxos.takeWhile (fun u => decide (u.amount ≤ maxInt64))).length < r.utxos.length
-        · simp [hbad] at h
-        · simp only [hbad, if_false] at h
-          by_cases hchg : r.change > 0
-          · simp only [hchg, if_true] at h
-            cases hu0 : r.utxos with
-            | nil => rw [hu0] at h; simp at h
-            | cons u0 tl =>
-              rw [hu0] at h hd
-              simp only at h
-              by_cases hmax : r.change > maxInt64
-              · simp [hmax] at h
-              · simp only [hmax, if_false, Prod.mk.injEq, and_true] at h
-                subst h
-                simpa using hd
-          · simp only [hchg, if_false, Prod.mk.injEq, and_true] at h
-            subst h
-            simpa using hd
 
 /-- `failed_build_rolls_back`: when any action fails, txbuilder.Build's rollback leaves the
     keeper with exactly the reservations it had before (every reservation made on the way is
@@ -225,18 +183,18 @@ theorem S_outs (a : Nat) (l : List TOut) : S a (l.map fun o => (o.asset, o.amoun
     simp only [List.map_cons, S, ih, ofAssetOut, List.filter_cons]
     by_cases h : o.asset = a <;> simp [h]
 
-/-- `built_tx_passes_balance_checks`: for a balanced request over a wallet without doubly listed
-    outputs (and per-asset input totals within int64) the built template passes the model of
+/-- `built_tx_passes_balance_checks`: for a balanced request (and per-asset input totals within
+    int64) the built template passes the model of
     validation's double-spend check and mux balance check (protocol/validation/tx.go), and the
     BTM value handed to `setGas` is exactly `tpl.Fee`. What remains for `ValidateTx` to accept
     is gas sufficiency (explicit side condition) and the programs/signatures (C02/C28). -/
 theorem built_tx_passes_balance_checks (sortFn : List Utxo → List Utxo) (hperm : ∀ l, (sortFn l).Perm l)
-    (k k' : Keeper) (exp : Nat) (actions : List Action) (t : Tpl) (hl : ListedNodup k)
+    (k k' : Keeper) (exp : Nat) (actions : List Action) (t : Tpl)
     (h : buildWith sortFn k exp actions = (.ok t, k')) (hb : Balanced actions)
     (hfit : ∀ asset, ofAssetIn asset t.ins ≤ maxInt64) :
     tplCheck t = .ok (t.fee : Int) := by
   obtain ⟨h1, h2, h3, _⟩ := built_tx_valid_balance sortFn hperm k k' exp actions t h hb
-  have hnd := build_inputs_distinct_partial sortFn hperm k k' exp actions t hl h
+  have hnd := build_inputs_distinct sortFn hperm k k' exp actions t h
   have hpos := (build_ok_inv sortFn hperm k k' exp actions t h).1.pos
   unfold tplCheck
   rw [mux_accepts_balanced (t.ins.map (·.id)) _ _ hnd
@@ -306,10 +264,6 @@ theorem mergeSpends_preserves_recipients (actions : List Action) : reqOuts (merg
         | none => simp [reqOuts_append, reqOuts]
         | some acc' => simp [hm acc acc' hmi, reqOuts]
   simpa [reqOuts] using key actions []
-
-/-- `ListedNodup` holds for a wallet whose DB records and unconfirmed outputs are different outputs -/
-example : ListedNodup { empty with confirmed := [⟨1, 0, 2000, 1, 0, 0, false, 1⟩], unconfirmed := [⟨2, 1, 300, 1, 0, 0, false, 2⟩] } := by
-  intro u; cases u <;> decide
 
 /-- non-trivial instance: single-key spend with change, two recipients, one retirement -/
 example : (build { empty with confirmed := [⟨1, 0, 2000, 1, 0, 0, false, 1⟩, ⟨2, 1, 300, 1, 0, 0, false, 2⟩] } 100
